@@ -386,6 +386,139 @@ fn extreme_venue_state(sim: &mut Sim, ctx: &mut Ctx, b: &VenueBank) {
     sim.stats.fault("integ_venue_extreme_state");
 }
 
+/// Fault: the feed a venue bank shares with an ordinary bank reports an extreme (but authentic and
+/// fresh) value - a Switchboard value at the edge of what the program's 80.48 fixed point can hold
+/// (2^79 .. 2^80 at 18 decimals, i.e. a price of $604k .. $1.2M), or a Pyth mantissa so large
+/// that the exchange-rate adjustment leaves the mantissa's integer type.  Conversions must then
+/// report an error, never a wrapped value.
+fn extreme_feed_value(sim: &mut Sim, ctx: &mut Ctx, b: &VenueBank) {
+    let Some(bank) = model::bank_of(&sim.store, &b.keys.bank) else { return };
+    let feed = bank.config.oracle_keys[0];
+    let now = sim.clock.unix_timestamp;
+    let Some(base) = ctx.world.groups[0].banks.iter().find(|x| x.oracle_key == feed).cloned() else { return };
+    let ev = match base.oracle {
+        OracleKind::Swb => {
+            let lo: i128 = 1i128 << 79;
+            let value = match ctx.rng.below(4) {
+                0 => lo,
+                1 => lo + ctx.rng.range(1, 1_000_000) as i128,
+                2 => lo + (ctx.rng.range(1, 999) as i128) * (lo / 1000),
+                // clearly below the edge (the last few 1e-15 relative below it are inside the
+                // truncation band of the exchange-rate adjustment, where either verdict is right)
+                _ => lo - (lo / 1_000_000) * ctx.rng.range(1, 1000) as i128,
+            };
+            Event::SetAccount {
+                key: feed,
+                account: Some(fixtures::swb_account(&fixtures::SwbData { value, std_dev: value / 100_000, last_update_timestamp: now })),
+                why: "oracle_extreme_feed_value",
+            }
+        }
+        OracleKind::Pyth => {
+            let m = match ctx.rng.below(3) {
+                0 => i64::MAX,
+                1 => i64::MAX / 2 + ctx.rng.range(0, 1_000_000) as i64,
+                _ => i64::MAX / ctx.rng.range(3, 1000) as i64,
+            };
+            Event::SetAccount {
+                key: feed,
+                account: Some(fixtures::pyth_account(
+                    base.feed_id,
+                    &fixtures::PythData { price: m, conf: (m / 100_000) as u64, ema_price: m, ema_conf: (m / 100_000) as u64, exponent: -12, publish_time: now, verification_full: true },
+                )),
+                why: "oracle_extreme_feed_value",
+            }
+        }
+        OracleKind::Fixed => return,
+    };
+    sim.apply(ev);
+    sim.stats.fault("integ_extreme_feed_value");
+}
+
+/// Drift dust drill: a position worth less than one token (one native unit deposited while the
+/// interest index is above 1 mints a scaled balance that converts back to zero tokens).  Closing
+/// it with "withdraw all" moves no tokens - it is still a withdrawal: it must pass the risk check
+/// of an owing holder and must be refused on a paused bank.
+fn dust_drill(sim: &mut Sim, ctx: &mut Ctx, st: &Integ, ui: usize, authority: Pubkey, ma: Pubkey) {
+    use crate::actors::{active_balances, i80};
+    use fixed::types::I80F48;
+    let g = ctx.world.groups[0].clone();
+    let drifts: Vec<VenueBank> = st.banks.iter().filter(|b| b.kind == VKind::Drift).cloned().collect();
+    if drifts.is_empty() {
+        return;
+    }
+    let b = ctx.rng.pick(&drifts).clone();
+    let Some(ta) = ctx.world.users[ui].tokens.get(&b.keys.mint).copied() else { return };
+    let Some(acc) = model::account_of(&sim.store, &ma) else { return };
+    let has_pos = active_balances(&acc).iter().any(|p| p.bank_pk == b.keys.bank);
+    if has_pos {
+        // take everything out first (needs a healthy account; otherwise give up)
+        let rm = crate::world::risk_metas(&sim.store, &ma, None, Some(b.keys.bank));
+        let o = sim.apply(Event::Tx(Tx::one("integ_user", ix::venue_withdraw(&b, ma, authority, ta, 0, Some(true), rm))));
+        if !o.map(|o| o.ok()).unwrap_or(false) {
+            return;
+        }
+    }
+    // make sure the interest index is above 1, then deposit one native unit
+    venue_interest(sim, ctx, &b);
+    refresh(sim, ctx, &b);
+    let o = sim.apply(Event::Tx(Tx::one("integ_user", ix::venue_deposit(&b, ma, authority, ta, 1))));
+    if !o.map(|o| o.ok()).unwrap_or(false) {
+        return;
+    }
+    sim.stats.fault("integ_drift_dust_position_opened");
+    let owes = model::account_of(&sim.store, &ma).map(|a| active_balances(&a).iter().any(|p| i80(p.liability_shares) >= I80F48::ONE)).unwrap_or(false);
+    match ctx.rng.below(3) {
+        0 => {
+            // the venue bank is paused by the group admin
+            let opt = marginfi_type_crate::types::BankConfigOpt { operational_state: Some(marginfi_type_crate::types::BankOperationalState::Paused), ..Default::default() };
+            let o = sim.apply(Event::Tx(Tx::one("group_admin", ix::configure_bank(g.key, g.admins.admin, b.keys.bank, opt))));
+            if o.map(|o| o.ok()).unwrap_or(false) {
+                sim.stats.fault("integ_drift_bank_paused_with_dust_position");
+            }
+        }
+        _ if owes => {
+            // the holder's collateral becomes too cheap for its debt: every feed of an asset
+            // position drops
+            let now = sim.clock.unix_timestamp;
+            for _ in 0..10 {
+                let Some(a) = model::account_of(&sim.store, &ma) else { return };
+                let bad = crate::refm::health(&sim.store, &a, crate::refm::Req::Init, sim.clock).map(|h| h.net() < model::qi(0)).unwrap_or(true);
+                if bad {
+                    sim.stats.fault("integ_drift_dust_holder_unhealthy");
+                    break;
+                }
+                let feeds: Vec<Pubkey> = active_balances(&a)
+                    .iter()
+                    .filter(|p| i80(p.asset_shares) >= I80F48::ONE)
+                    .filter_map(|p| model::bank_of(&sim.store, &p.bank_pk).map(|k| k.config.oracle_keys[0]))
+                    .collect();
+                for f in feeds {
+                    let Some(base) = ctx.world.groups[0].banks.iter_mut().find(|x| x.oracle_key == f) else { continue };
+                    let np = (base.price_micro / 3).max(1);
+                    base.price_micro = np;
+                    let ev = match base.oracle {
+                        OracleKind::Pyth => Event::SetAccount { key: f, account: Some(fixtures::pyth_account(base.feed_id, &crate::world::pyth_from_micro(np, base.expo, 10, 0, now))), why: "oracle_jump" },
+                        OracleKind::Swb => Event::SetAccount { key: f, account: Some(fixtures::swb_account(&crate::world::swb_from_micro(np, 10, now))), why: "oracle_jump" },
+                        OracleKind::Fixed => continue,
+                    };
+                    sim.apply(ev);
+                }
+            }
+        }
+        _ => {}
+    }
+    for vb in st.banks.iter() {
+        refresh(sim, ctx, vb);
+    }
+    let rm = crate::world::risk_metas(&sim.store, &ma, None, Some(b.keys.bank));
+    let o = sim.apply(Event::Tx(Tx::one("integ_user", ix::venue_withdraw(&b, ma, authority, ta, 0, Some(true), rm))));
+    if o.map(|o| o.ok()).unwrap_or(false) {
+        sim.stats.fault("integ_drift_dust_position_closed");
+    } else {
+        sim.stats.fault("integ_drift_dust_close_refused");
+    }
+}
+
 fn top_up(sim: &mut Sim, ta: &Pubkey, add: u64) {
     if let Some(mut acc) = sim.store.get(ta).cloned() {
         let cur = fixtures::token_amount(&acc.data);
@@ -438,8 +571,13 @@ pub fn step(sim: &mut Sim, ctx: &mut Ctx, st: &Integ) {
     match ctx.rng.below(11) {
         0 => venue_interest(sim, ctx, &b),
         10 => {
-            if ctx.rng.chance(1, 4) {
+            let k = ctx.rng.below(8);
+            if k < 2 {
                 extreme_venue_state(sim, ctx, &b);
+            } else if k == 2 {
+                extreme_feed_value(sim, ctx, &b);
+            } else if k < 5 {
+                dust_drill(sim, ctx, st, ui, authority, ma);
             } else {
                 // zero-time round trip: deposit, then take everything out again, atomically
                 let amount = ctx.rng.range(1, 50_000_000);
